@@ -12,9 +12,11 @@ Model of the TLS certificate resolver `sozu_lib::tls::CertificateResolver`
   `CertifiedKey` payload plays no part in the selection;
 * `domains` is the shared pattern-trie model (`Sozu.Trie.Model`), the `regex`
   crate is the parameter `re` of the lookups;
+* `CertifiedKeyWrapper::try_from` lower-cases the names, strips one trailing
+  dot and refuses names the trie cannot hold (`prepare`);
 * a panic of the code (`assert_ne!(insert_result, Failed)` in
   `TrieNode::insert`, `assert_ne!(partial_key, b"")` in `insert_recursive`) sets
-  `dead`.
+  `dead` (unreachable since the validation, see `C17_no_panic`).
 
 Import-free apart from the trie model so the driver links as an executable.
 -/
@@ -40,6 +42,27 @@ structure State where
   dead : Bool
 
 def init : State := { domains := Node.root, certs := [], idx := [], dead := false }
+
+-- ------------------------------------- names of a parsed certificate --
+
+def asciiLower (b : Nat) : Nat := if 65 ≤ b ∧ b ≤ 90 then b + 32 else b
+def lower (s : Bytes) : Bytes := s.map asciiLower
+
+/-- `CertifiedKeyWrapper::try_from`: `make_ascii_lowercase`, then one trailing
+    dot is popped when the name is longer than one byte -/
+def normCertName (n : Bytes) : Bytes :=
+  let l := lower n
+  if l.length > 1 ∧ l.getLast? = some DOT then l.dropLast else l
+
+/-- `try_from` refuses (`InvalidName`) a name that is empty, starts with `.`
+    or contains `/` (checked on the normalised names) -/
+def validCertName (n : Bytes) : Bool := !(n.isEmpty || n.head? == some DOT || n.contains SLASH)
+
+/-- the certificate as `try_from` builds it from the (overriding or CN/SAN)
+    names of the request; `none` = `Err(InvalidName)` -/
+def prepare (c : Cert) : Option Cert :=
+  let ns := c.names.map normCertName
+  if ns.all validCertName then some { c with names := ns } else none
 
 -- ------------------------------------------------------------- sorting --
 
@@ -77,7 +100,7 @@ def addName (fp : Fp) (e : Int) (s : State) (name : Bytes) : State :=
     let r := trieInsert t1 name last.1
     { s with idx := idx', domains := r.1, dead := s.dead || r.2 }
 
-/-- `add_certificate` once the `AddCertificate` has been parsed into `c`. -/
+/-- `add_certificate` once `try_from` has built `c` (see `prepare`). -/
 def add (s : State) (c : Cert) : State :=
   if KMap.contains s.certs c.fp then s
   else
@@ -159,6 +182,8 @@ end
 -- ------------------------------------------------------------ the ops --
 
 inductive Op
+  /-- `c.names` are the names of the request (overriding names, or the CN/SAN of
+      the certificate), before `try_from` normalises and validates them -/
   | add (c : Cert)
   /-- an `AddCertificate` whose PEM / key does not parse -/
   | addInvalid
@@ -179,10 +204,16 @@ def step (s : State) (op : Op) : State × Out :=
   if s.dead then (s, .dead)
   else
     let r : State × Out := match op with
-      | .add c => (add s c, .fp c.fp)
+      | .add c =>
+        match prepare c with
+        | some c' => (add s c', .fp c'.fp)
+        | none => (s, .err)
       | .addInvalid => (s, .err)
       | .remove fp => (remove s fp, .ok)
-      | .replace old c => (replace s old c, .fp c.fp)
+      | .replace old c =>
+        match prepare c with
+        | some c' => (replace s old c', .fp c'.fp)
+        | none => (s, .err)
       | .replaceInvalid _ => (s, .err)
     if r.1.dead then (r.1, .dead) else r
 
@@ -213,9 +244,7 @@ def replaceTrace (s : State) (old : Option Fp) (c : Cert) : List State :=
 
 def COLON : Nat := 58
 
-def asciiLower (b : Nat) : Nat := if 65 ≤ b ∧ b ≤ 90 then b + 32 else b
 def isDigit (b : Nat) : Bool := decide (48 ≤ b ∧ b ≤ 57)
-def lower (s : Bytes) : Bytes := s.map asciiLower
 
 /-- `str::split_once(c)` -/
 def splitOnce (s : Bytes) (c : Nat) : Option (Bytes × Bytes) :=
